@@ -961,6 +961,13 @@ func (sc *SpecCtx) evalCall(e *ECall) (Val, error) {
 			}
 		}
 		return Val{T: app("i.val", sc.term(v)), Ty: ty, Sort: "Int"}, nil
+	case "blen":
+		v, err := sc.eval(e.Args[0])
+		if err != nil {
+			return Val{}, err
+		}
+		vc.declareFun("blen_", []string{"Int"}, "Int")
+		return Val{T: app("blen_", sc.term(v)), Ty: types.Typ[types.Int]}, nil
 	case "crc32", "xxhash":
 		v, err := sc.eval(e.Args[0])
 		if err != nil {
